@@ -124,3 +124,15 @@ Definition spec_io (items : list ioitem) : outcome (list Z) :=
   if has_kv items then
     mapM (fun k => of_option ValueError (io_last k items None)) io_keys
   else Exc RuntimeError.
+
+(* ------------------------------------------------ the real kernel (live cases)
+   What fs/proc/fd.c prints as "flags:" for a descriptor obtained with open(2) flags [req]
+   on a 64-bit kernel: the creation flags O_CREAT|O_EXCL|O_NOCTTY|O_TRUNC (0o1700) are not
+   kept in f_flags, O_LARGEFILE (0o100000) is forced, and O_CLOEXEC (0o2000000) reflects the
+   descriptor's close-on-exec bit ([cloexec]; Python's os.open always sets it). *)
+Definition creation_mask : Z := 960.     (* 0o1700 *)
+Definition O_LARGEFILE : Z := 32768.     (* 0o100000 *)
+Definition O_CLOEXEC : Z := 524288.      (* 0o2000000 *)
+Definition k_open_flags (req : Z) (cloexec : bool) : Z :=
+  let f := Z.lor (Z.ldiff (Z.ldiff req creation_mask) O_CLOEXEC) O_LARGEFILE in
+  if cloexec then Z.lor f O_CLOEXEC else f.
